@@ -326,6 +326,25 @@ def run(ctx):
             fail(idx, "C10/ensrank/ranks-not-weigel-mason",
                  f"ranks={ranks}, Weigel-Mason ranks={[float(x) for x in wr]} (eps={eps}, sim={sim})")
 
+    def do_large(m):
+        """two ensembles of m members whose comparison is one half-step 1/(2 m^2) below a tie"""
+        sim = [[0.0] * (m - 1) + [1.0], [0.0] * (m - 1) + [2.0]]
+        code, fm, rk = call_ensrank(1e-6, sim)
+        ctx.count(("ensrank-large-ensemble", m))
+        rp = {"call": "c_hydrodiy_stat.ensrank", "eps": 1e-6, "m": m,
+              "sim_recipe": "sim = [[0.0]*(m-1)+[1.0], [0.0]*(m-1)+[2.0]]"}
+        # exact pairwise comparison: the (m-1)^2 tied pairs count 1/2, the m-1 pairs (1 vs 0) count 1
+        Fx = (Fr((m - 1) * (m - 1), 2) + (m - 1)) / (m * m)
+        want = [Fr(1), Fr(2)]
+        if code != 0 or abs(Fr(float(fm[0, 1])) - Fx) > Fr(1, 10 ** 12):
+            fail(None, "C10/ensrank/fmat-not-midrank",
+                 f"{m} members: return code {code}, fmat[0,1]={float(fm[0, 1])!r}, exact {float(Fx)!r}", rp)
+        elif [Fr(float(v)) for v in rk] != want:
+            key = "C10/ensrank/ranks-not-weigel-mason" + ("/ensemble-of-7072-or-more" if m >= 7072 else "")
+            fail(None, key,
+                 f"{m} members: ranks {[float(v) for v in rk]}, Weigel-Mason ranks {[float(v) for v in want]} "
+                 f"(F = 1/2 - 1/(2 m^2) = {float(fm[0, 1])!r})", dict(rp, ranks=[float(v) for v in rk]))
+
     nmax, mmax = (30, 24) if thorough else (12, 8)
 
     # ------------------------------------------------------------------
@@ -337,7 +356,9 @@ def run(ctx):
     for rp in stored:
         ctx.count(("stored-replay", rp.get("call")))
         try:
-            if rp["call"] == "c_hydrodiy_stat.ensrank":
+            if rp["call"] == "c_hydrodiy_stat.ensrank" and "m" in rp:
+                do_large(int(rp["m"]))
+            elif rp["call"] == "c_hydrodiy_stat.ensrank":
                 do_ensrank(rp["eps"], rp["sim"], "stored")
             elif rp["call"] == "metrics.anderson_darling_test":
                 a, pa = metrics.anderson_darling_test(np.array(rp["data"], dtype=np.float64))
@@ -378,26 +399,9 @@ def run(ctx):
             sim = [[v * 2.0 ** 62 for v in row] for row in sim]
             mode += "+large"
         do_ensrank(eps, sim, mode)
-    # very large ensembles: the fixed thresholds 0.5 -+ 1e-8 against the smallest gap 1/(2 m^2)
-    for m in (7071, 7072):
-        sim = [[0.0] * (m - 1) + [1.0], [0.0] * (m - 1) + [2.0]]
-        code, fm, rk = call_ensrank(1e-6, sim)
-        ctx.count(("ensrank-large-ensemble", m))
-        # exact pairwise comparison: the (m-1)^2 tied pairs count 1/2, (1 vs 0) m-1 pairs count 1
-        Fx = (Fr((m - 1) * (m - 1), 2) + (m - 1)) / (m * m)
-        want = [Fr(1), Fr(2)] if Fx < Fr(1, 2) else [Fr(2), Fr(1)]
-        if code != 0 or abs(Fr(float(fm[0, 1])) - Fx) > Fr(1, 10 ** 9):
-            fail(None, "C10/ensrank/fmat-not-midrank",
-                 f"{m} members: fmat[0,1]={float(fm[0, 1])!r}, exact {float(Fx)!r}",
-                 {"call": "c_hydrodiy_stat.ensrank", "eps": 1e-6, "m": m,
-                  "sim": f"[[0]*{m - 1}+[1], [0]*{m - 1}+[2]]"})
-        elif [Fr(float(v)) for v in rk] != want:
-            key = "C10/ensrank/ranks-not-weigel-mason" + ("/ensemble-of-7072-or-more" if m >= 7072 else "")
-            fail(None, key,
-                 f"{m} members: ranks {[float(v) for v in rk]}, Weigel-Mason ranks {[float(v) for v in want]} "
-                 f"(F = 1/2 - 1/(2 m^2) = {float(fm[0, 1])!r})",
-                 {"call": "c_hydrodiy_stat.ensrank", "eps": 1e-6, "m": m,
-                  "sim": f"[[0]*{m - 1}+[1], [0]*{m - 1}+[2]]", "ranks": [float(v) for v in rk]})
+    # very large ensembles: the smallest gap of F from 1/2 is 1/(2 m^2)
+    for m in (7071, 7072, 9973):
+        do_large(m)
     # error paths of the kernel
     for eps, sim in [(1e-21, [[1.0, 2.0], [2.0, 3.0]]), (0.0, [[1.0], [2.0]]), (-1.0, [[1.0], [2.0]]),
                      (1e-6, [[], [], []]), (1e-6, []), (float("nan"), [[1.0, 2.0], [0.0, 1.0]])]:
